@@ -81,6 +81,16 @@ fn main() {
             let s = checks::table::run(&lines, &o, other);
             write_summary(&a, &s);
         }
+        "record-flow" => {
+            let lines = read_lines(a.input.as_ref().unwrap());
+            let o = checks::flow::FlowOpts {
+                seed: a.seed,
+                runs_per_graph: opt("runs").and_then(|s| s.parse().ok()).unwrap_or(4),
+                max_graphs: opt("graphs").and_then(|s| s.parse().ok()).unwrap_or(200),
+            };
+            let s = checks::flow::run(&lines, &o, &opt("trace").expect("--opt trace=FILE"));
+            write_summary(&a, &s);
+        }
         other => { eprintln!("mt: unknown subcommand {}", other); std::process::exit(2) }
     }
 }
